@@ -28,8 +28,10 @@ Inductive dfile := FNone | FBad | FPanic | FDeps (l : list dep).
 Record pkg := MkPkg {
   p_cat : bytes;                 (* directory var/db/pkg/<cat> *)
   p_pf : bytes;                  (* directory <name>-<version> *)
-  p_pn : bytes;                  (* PackageName() of the parsed directory name (oracle, C14) *)
-  p_slot : bytes;                (* GetSlot(): comparable slot key, sub-slot stripped (oracle, C13) *)
+  p_pn : bytes;                  (* PackageName(): category "/" name, the name being PF without its version.  In a case:
+                                    cut by the harness, re-checked by C05.name_tied -- not the loader's answer *)
+  p_slot : bytes;                (* GetSlot(): comparable slot key, sub-slot stripped.  In a case: C05.slot_key of the
+                                    SLOT text the harness wrote -- not the loader's answer *)
   p_iuse_eff : option bytes;     (* file contents *)
   p_iuse : option bytes;
   p_use : option bytes;
